@@ -183,6 +183,12 @@ def generate(rng, n, tier="quick"):
          ("out", "[A:lh:0][B:lh:1][C:lh:2]|[C:lh:9]")),
         ("ctx-twice", {"escape": "none", "decorators": [{"name": "setctx", "kind": "setctx"}]},
          [("main", "{{x}}|{{*setctx a}}{{x}}|{{*setctx b}}{{x}}")], {"x": 0, "a": {"x": 1, "b": {"x": 2}}}, ("out", "0|1|2")),
+        # a subexpression WITHOUT arguments that names neither a helper nor a field is handed to the helperMissing hook like any other
+        # unknown name (with the hook registered); with a helper of that name it is a call
+        ("sub-bare-hook", {"escape": "none", "helpers": [{"name": "helperMissing", "kind": "mark", "tag": "HM"}, {"name": "id", "kind": "vret"}]},
+         [("main", "<{{id (nope)}}|{{#if (nope)}}T{{/if}}|{{id (nope 1)}}>")], {}, ("out", "<[HM:nope:]|T|[HM:nope:1]>")),
+        ("sub-bare-helper", {"escape": "none", "helpers": [{"name": "uh", "kind": "mark", "tag": "U"}, {"name": "id", "kind": "vret"}]},
+         [("main", "<{{id (uh)}}>")], {"uh": "field"}, ("out", "<[U:uh:]>")),
         ("inline-after-only", {"escape": "none"}, [("p", "REG"), ("main", "{{> p}}|{{#*inline \"p\"}}INL{{/inline}}{{> p}}")], {}, ("out", "REG|INL")),
     ]
     for idn, cfg, templates, data, exp in extra:
